@@ -375,4 +375,77 @@ fn c03_error_absorbing() {
     std::mem::forget(r); std::mem::forget(d); std::mem::forget(q);
 }
 
+// ------------------------------------------------------------------------------------------------
+// H5 body decoders on bodies of CONCRETE length with symbolic bytes (stretch: the MQTT5 decoders' error exits drop a
+// half-built Box<MqttPacket>, which is what did not finish in the probes)
+// ------------------------------------------------------------------------------------------------
+
+fn ack5_body(kind: u8, len: usize) {
+    let first: u8 = kani::any();
+    let body: [u8; 4] = kani::any();
+    let r = match kind {
+        0 => crate::mqtt::puback::decode_puback_packet5(first, &body[..len]),
+        1 => crate::mqtt::pubrec::decode_pubrec_packet5(first, &body[..len]),
+        2 => crate::mqtt::pubrel::decode_pubrel_packet5(first, &body[..len]),
+        _ => crate::mqtt::pubcomp::decode_pubcomp_packet5(first, &body[..len]),
+    };
+    let want_first = match kind { 0 => 0x40, 1 => 0x50, 2 => 0x62, _ => 0x70 };
+    let code_ok = if len >= 3 { if kind < 2 { in_set(body[2], &PUBACK_CODES) } else { in_set(body[2], &PUBREL_CODES) } } else { true };
+    let props_ok = if len >= 4 { body[3] == 0 } else { true };
+    let expect = first == want_first && code_ok && props_ok;
+    kani::cover!(expect, "well-formed acknowledgement");
+    kani::cover!(!expect, "malformed acknowledgement");
+    assert!(r.is_ok() == expect, "gv: an acknowledgement body is accepted iff it is well-formed");
+    if let Ok(p) = &r {
+        let (pid, rc) = match &**p { MqttPacket::Puback(x) => (x.packet_id, x.reason_code as u8), MqttPacket::Pubrec(x) => (x.packet_id, x.reason_code as u8),
+                                      MqttPacket::Pubrel(x) => (x.packet_id, x.reason_code as u8), MqttPacket::Pubcomp(x) => (x.packet_id, x.reason_code as u8), _ => { assert!(false); (0, 0) } };
+        assert!(pid == ((body[0] as u16) << 8 | body[1] as u16), "gv: packet id decoded faithfully");
+        assert!(rc == if len >= 3 { body[2] } else { 0 }, "gv: reason code decoded faithfully (absent = success)");
+    }
+    std::mem::forget(r);
+}
+
+// @gv props=C03,C11,C01 tier=thorough required=no fns=decode_puback_packet5,decode_pubrec_packet5,decode_pubrel_packet5,decode_pubcomp_packet5
+// @gv bounds="MQTT5 PUBACK/PUBREC/PUBREL/PUBCOMP (symbolic choice) with a 2-byte body (packet id only), symbolic first byte"
+// @gv timeout=1800 mem=16
+#[kani::proof]
+#[kani::unwind(12)]
+#[kani::stub(std::fmt::format, stub_format)]
+fn c03_body_ack5_len2() { let k: u8 = kani::any(); kani::assume(k < 4); ack5_body(k, 2) }
+
+// @gv props=C03,C11,C01 tier=thorough required=no fns=decode_puback_packet5
+// @gv bounds="MQTT5 PUBACK with a 3-byte body (packet id + reason code), all bytes symbolic"
+// @gv timeout=1800 mem=16
+#[kani::proof]
+#[kani::unwind(12)]
+#[kani::stub(std::fmt::format, stub_format)]
+fn c03_body_puback5_len3() { ack5_body(0, 3) }
+
+// @gv props=C03,C11,C01 tier=thorough required=no fns=decode_pubcomp_packet5
+// @gv bounds="MQTT5 PUBCOMP with a 4-byte body (packet id + reason code + property length), all bytes symbolic"
+// @gv timeout=1800 mem=16
+#[kani::proof]
+#[kani::unwind(12)]
+#[kani::stub(std::fmt::format, stub_format)]
+fn c03_body_pubcomp5_len4() { ack5_body(3, 4) }
+
+// @gv props=C03,C11,C07 tier=thorough required=no fns=decode_connack_packet311
+// @gv bounds="MQTT 3.1.1 CONNACK with a body of symbolic length 0..3 and symbolic bytes"
+// @gv timeout=1800 mem=16
+#[kani::proof]
+#[kani::unwind(8)]
+#[kani::stub(std::fmt::format, stub_format)]
+fn c03_body_connack311() {
+    let first: u8 = kani::any();
+    let body: [u8; 3] = kani::any();
+    let len: usize = kani::any();
+    kani::assume(len <= 3);
+    let r = crate::mqtt::connack::decode_connack_packet311(first, &body[..len]);
+    let expect = first == 0x20 && len == 2 && body[0] <= 1 && body[1] <= 5;
+    kani::cover!(expect, "well-formed CONNACK");
+    assert!(r.is_ok() == expect, "gv: a 3.1.1 CONNACK is accepted iff flags are 0/1 and the return code is 0..5");
+    if let Ok(p) = &r { match &**p { MqttPacket::Connack(c) => { assert!(c.session_present == (body[0] == 1)); }, _ => assert!(false) } }
+    std::mem::forget(r);
+}
+
 include!("decode_gen.rs");
